@@ -1092,7 +1092,7 @@ def run(ctx):
         check_base64(ctx)
         batch = Batch(ctx, tmp)
         # ---- base data sets x full matrix
-        n_base = ctx.scale(1, 12)
+        n_base = ctx.scale(1, 60)
         for bi in range(n_base):
             n = 5 if bi == 0 else rng.choice([4, 5, 7, 8, 10])
             ctypes = [5, 9, 5, 3] if bi == 0 else [rng.choice([1, 3, 5, 9, 10, 12, 14]) for _ in range(rng.choice([2, 4, 5, 7]))]
@@ -1116,7 +1116,7 @@ def run(ctx):
             batch.run([(dsp, c) for c in sample[i:i + 40]],
                       tags_of=lambda d, c, L=lengths: ["matrix-vtp"] + boundary_tags(L, c))
         # ---- random data sets x random configurations (mixed per-array formats, empty cell sets, odd block sizes)
-        n_rand = ctx.scale(200, 20000)
+        n_rand = ctx.scale(200, 40000)
         cases = []
         for _ in range(n_rand):
             ds = random_ds(rng, "vtu" if rng.random() < 0.7 else "vtp")
